@@ -129,6 +129,8 @@ public:
             data = other.data;
             mark = other.mark;
             my_size.store(other.my_size.load(std::memory_order_relaxed), std::memory_order_relaxed);
+            // The heap in data is ordered by the comparator of its queue
+            my_compare = other.my_compare;
         }
         return *this;
     }
@@ -139,6 +141,8 @@ public:
             data = std::move(other.data);
             mark = other.mark;
             my_size.store(other.my_size.load(std::memory_order_relaxed), std::memory_order_relaxed);
+            // The heap in data is ordered by the comparator of its queue
+            my_compare = other.my_compare;
         }
         return *this;
     }
@@ -215,6 +219,8 @@ public:
             using std::swap;
             swap(data, other.data);
             swap(mark, other.mark);
+            // The heaps are ordered by the comparators of their queues
+            swap(my_compare, other.my_compare);
 
             size_type sz = my_size.load(std::memory_order_relaxed);
             my_size.store(other.my_size.load(std::memory_order_relaxed), std::memory_order_relaxed);
